@@ -976,7 +976,12 @@ class Engine:
         else:
             raise Unsupported("comprehension iterable")
         save = self.spec_mode
+        n_pc = len(s2.pc)
         body = self.eval(e.elt, s2)
+        if len(s2.pc) != n_pc:
+            # the element expression produced facts about fresh symbols (a call through a contract, an abstraction with assumptions):
+            # they hold for ONE symbolic element and cannot be attached to every element of the result here
+            raise Unsupported("comprehension whose element expression calls a contracted / abstracted function")
         ek = self.kind_of(body)
         new = fresh("comp", z3.ArraySort(INT, sort_of_kind(ek)))
         st.assume(z3.ForAll([k], z3.Implies(z3.And(0 <= k, k < n), z3.Select(new, k) == self.coerce(body, ek)),
